@@ -402,7 +402,12 @@ def apply_contract(ip: Interp, con: Contract, fn, args, kwargs, bound_cls) -> SV
     # 3. havoc the frame
     pre_heap = dict(st.heap)
     if not con.pure and con.modifies is not None:
-        locs_list = eval_modifies(ip, con, locs)
+        saved = ip.old_heap
+        ip.old_heap = pre_heap          # old() in a callee's frame means the state at the call
+        try:
+            locs_list = eval_modifies(ip, con, locs)
+        finally:
+            ip.old_heap = saved
         havoc(ip, locs_list)
         # the callee may allocate: its objects take the next block of references (assumption
         # A-ALLOC: a callee under contract allocates fewer than 2^20 objects)
@@ -849,7 +854,7 @@ def verify_function(target: str, only: Optional[str] = None, timeout_ms: Optiona
         if vac == z3.unsat:
             res.error = 'vacuous precondition (requires is unsatisfiable)'
             return res
-        st.fact(z3.Int('nowhere!') >= st.alloc0 + 1000000)
+        st.fact(z3.Int('nowhere!') >= st.alloc0 + (1 << 50))      # beyond every allocation block
         pre_heap = dict(st.heap)
         pre_nalloc = st.nalloc
         base_pc = list(st.pc)
